@@ -97,6 +97,17 @@ inline std::string gen_scenario(const unsigned char *data, size_t size, const st
   // ---- body
   unsigned nreq = 1 + c.pick((unsigned)pf.max_reqs); int id = 0; unsigned body = nreq + c.pick(10);
   std::vector<int> ids;
+  if (pf.cookies && c.chance(1, 3)) {
+    // cookie life-cycle production: prove support, a cookie-less reply, more valid traffic, cross a timer, then test again
+    o += "cookie 0 valid\nrule 0 * * answer\n";
+    static const char *waits[] = {"adv 121s", "adv 119s", "adv 301s", "adv 86401s", "adv 30s", "adv 120s"};
+    o += "req 1 query r1.test A\nstep\nstep\n"; id = 1; ids.push_back(1);
+    o += "rule * r2 0 silence\nreq 2 query r2.test A\ninject nocookie 2\nstep\nadv timeout\nstep\nstep\n"; id = 2; ids.push_back(2);
+    if (c.chance(2, 3)) { o += "req 3 query r3.test A\nstep\nstep\n"; id = 3; ids.push_back(3); }
+    o += std::string(waits[c.pick(6)]) + "\n";
+    if (c.chance(1, 3)) o += "srcaddr 0 192.168.9.9\n";
+    o += "rule * r4 0 silence\nreq 4 query r4.test A\ninject " + std::string(c.chance(3, 4) ? "nocookie" : "badclientcookie") + " 4\nstep\nstep\n"; id = 4; ids.push_back(4);
+  }
   for (unsigned i = 0; i < body; i++) {
     unsigned k = c.pick(20);
     if ((k < 8 || ids.empty()) && id < pf.max_reqs) {
